@@ -39,6 +39,8 @@ Judge(e) ==
               ELSE IF Post(e, {"types"}) THEN "lenient:types"
               ELSE IF Post(e, {"order"}) THEN "lenient:order"
               ELSE IF Post(e, {"unbound", "types", "order"}) THEN "lenient:several"
+              ELSE IF Post(e, {"sideways"}) THEN "lenient:sideways"
+              ELSE IF Post(e, {"sideways", "unbound", "types", "order"}) THEN "lenient:sideways+"
               ELSE "wrong-effect"
          [] e.cls = "reject" ->
               IF ~Unchanged(e) THEN "rejected-but-changed"
